@@ -80,6 +80,17 @@ func runTSCase(k TSCase) (verdict string) {
 			// (Second vs Nanosecond-with-0-digits are the same Ion value but different enum values)
 			return fmt.Sprintf("ParseTimestamp(String()) not Equal to the original for %q", s)
 		}
+		// the exported constructor ParseTimestamp itself goes through for minute precision and finer,
+		// given the precision and offset kind the literal has
+		if t.Prec >= model.PMinute {
+			direct, err := ion.NewTimestampFromStr(s, back.GetPrecision(), back.GetTimezoneKind())
+			if err != nil {
+				return fmt.Sprintf("NewTimestampFromStr(%q, %v, %v) failed: %v", s, back.GetPrecision(), back.GetTimezoneKind(), err)
+			}
+			if dt, soft := ionx.TSOf(direct); soft != "" || dt != t {
+				return fmt.Sprintf("NewTimestampFromStr(%q, %v, %v) = %v %+v %s", s, back.GetPrecision(), back.GetTimezoneKind(), dt, dt, soft)
+			}
+		}
 	case "getters":
 		ts := ionx.ToTS(t, k.Variant)
 		bt, soft := ionx.TSOf(ts)
